@@ -103,15 +103,15 @@ class PassSequence(Unit, Sequence[Unit]):
     def flatten(self) -> None:
         """Flatten the sequence."""
         new_list = []
-        for item in self:
+        for item in list(self._subunits):
             if isinstance(item, PassSequence):
-                for subitem in item:
-                    new_list.append(subitem)
+                new_list.extend(item.units)
+                item._subunits.clear()
             else:
                 new_list.append(item)
 
-        del self._subunits
-        self._subunits = new_list
+        self._subunits.clear()
+        self._subunits.extend(new_list)
 
     @property
     def units(self) -> List[Unit]:
